@@ -351,25 +351,35 @@ TRR_KEYS = ["ir_size", "e_size", "box_size", "vir_size", "pres_size", "top_size"
             "v_size", "f_size"]
 
 
-def trr_frame(endian, double, natoms, step, rng):
-    """one TRR frame (header + box + x + v) exactly in the layout read_trr_header expects"""
+def trr_frame(endian, double, natoms, step, rng, blocks="xv"):
+    """one TRR frame (header + box + the blocks named in `blocks` ⊆ "xvf") in the layout read_trr_header expects"""
     fs = 8 if double else 4
     fc = "d" if double else "f"
     version = b"GMX_trn_file"
-    box = [float(rng.randrange(-40, 40)) / 4 for _ in range(9)]
-    x = [float(rng.randrange(-400, 400)) / 8 for _ in range(3 * natoms)]
-    v = [float(rng.randrange(-400, 400)) / 16 for _ in range(3 * natoms)]
+    vals = {"box": [float(rng.randrange(-40, 40)) / 4 for _ in range(9)]}
+    for key, div in (("x", 8), ("v", 16), ("f", 32)):
+        if key in blocks:
+            vals[key] = [float(rng.randrange(-400, 400)) / div for _ in range(3 * natoms)]
     sizes = {"ir_size": 0, "e_size": 0, "box_size": 9 * fs, "vir_size": 0, "pres_size": 0, "top_size": 0,
-             "sym_size": 0, "x_size": 3 * natoms * fs, "v_size": 3 * natoms * fs, "f_size": 0}
+             "sym_size": 0, "x_size": 0, "v_size": 0, "f_size": 0}
+    for key in "xvf":
+        if key in blocks:
+            sizes[key + "_size"] = 3 * natoms * fs
     h = struct.pack(endian + "1i", 1993)
     h += struct.pack(endian + "2i", 13, 12)
     h += struct.pack(endian + "12s", version)
     h += struct.pack(endian + "13i", *[sizes[k] for k in TRR_KEYS], natoms, step, 0)
     h += struct.pack(endian + "2" + fc, step * 0.5, 0.0)
-    body = struct.pack(endian + "9" + fc, *box)
-    body += struct.pack(endian + f"{3 * natoms}{fc}", *x)
-    body += struct.pack(endian + f"{3 * natoms}{fc}", *v)
-    return h, body, {"box": box, "x": x, "v": v, "step": step}
+    body = struct.pack(endian + "9" + fc, *vals["box"])
+    for key in "xvf":
+        if key in blocks:
+            body += struct.pack(endian + f"{3 * natoms}{fc}", *vals[key])
+    vals["step"] = step
+    return h, body, vals
+
+
+class _Spin(Exception):
+    """the reader keeps sleeping although every byte is on disk and the process has ended"""
 
 
 class _FileProxy:
@@ -420,8 +430,11 @@ def trr_run(tmpdir, data: bytes, schedule, trace=None):
 
     def grow():
         state["ticks"] += 1
-        if state["ticks"] > 20000:
-            raise RuntimeError("reader does not make progress")
+        if state["i"] >= len(cuts):
+            # everything is on disk: a correct reader needs a handful of further polls at most
+            state["idle"] = state.get("idle", 0) + 1
+            if state["idle"] > 64:
+                raise _Spin()
         if state["i"] < len(cuts):
             c = cuts[state["i"]]
             state["i"] += 1
@@ -462,7 +475,10 @@ def trr_run(tmpdir, data: bytes, schedule, trace=None):
     try:
         try:
             for fr in runner.get_gromacs_frames():
-                out.append((state["prev"], {k: [float(z) for z in fr[k].reshape(-1)] for k in ("box", "x", "v") if k in fr}))
+                out.append((state["prev"], {k: [float(z) for z in fr[k].reshape(-1)]
+                                            for k in ("box", "vir", "pres", "x", "v", "f") if k in fr}))
+        except _Spin:
+            out.append("spin")
         except Exception as e:  # noqa: BLE001
             out.append(err_kind(e))
     finally:
@@ -493,69 +509,113 @@ def trr_ticks(trace):
     return sizes, ["w" if t is None else f"r:{t[0]}:{t[1]}:{t[2]}" for t in ticks], bad
 
 
+TRR_COMBOS = ["", "x", "v", "f", "xv", "xf", "vf", "xvf"]
+
+
+def trr_scenarios(ctx):
+    """(natoms, [blocks per frame], every_byte) — uniform and heterogeneous frame layouts
+    (nstxout != nstvout != nstfout: frames with x only, x+v, x+v+f, a small first frame, a small last frame)"""
+    rng = ctx.rng
+    sc = [(1, ["xv", "xv"], True), (3, ["xv"] * 3, True), (40, ["xv"] * 3, False),
+          (12, ["x", "xv", "xvf"], True), (12, ["xvf", "x", "x"], False), (12, ["xvf", "xv", "x", "xvf"], False),
+          (16, ["", "xvf", "x"], False), (30, ["x", "xvf"], False), (30, ["xvf", "x"], False)]
+    n_rand = 1 if ctx.quick else 12
+    for _ in range(n_rand):
+        sc.append((rng.randrange(8, 24), [rng.choice(TRR_COMBOS) for _ in range(rng.randrange(2, 5))], False))
+    if not ctx.quick:
+        sc += [(14, list(TRR_COMBOS), True), (14, list(reversed(TRR_COMBOS)), True)]
+        sc = [(n, b, True) for n, b, _ in sc]
+    return sc
+
+
+def trr_predicate(out, frames, ends):
+    got = []
+    for st in out:
+        if st == "spin":
+            return ("C13:trr:frame-withheld",
+                    f"frame {len(got)} is completely on disk and the MD program has ended, but it is never returned "
+                    f"(the reader keeps waiting: > 64 further polls)")
+        if isinstance(st, str):
+            return ("C13:trr:partial-frame-raises", f"get_gromacs_frames raised {st}")
+        visible, fr = st
+        k = len(got)
+        if k >= len(frames):
+            return ("C13:trr:torn-or-wrong-frame", f"an extra frame {k} was yielded")
+        want = {key: v for key, v in frames[k].items() if key != "step"}
+        if fr != want:
+            return ("C13:trr:torn-or-wrong-frame", f"yielded frame {k} differs from the written one")
+        if ends[k] > visible:
+            return ("C13:trr:torn-or-wrong-frame",
+                    f"frame {k} yielded with {visible} bytes visible, it ends at {ends[k]}")
+        got.append(fr)
+    if len(got) != len(frames):
+        return ("C13:trr:frame-withheld", f"{len(got)} of {len(frames)} frames yielded")
+    return None
+
+
 def check_trr(ctx, tmpdir):
     rng = ctx.rng
     ncase = 0
+    scenarios = trr_scenarios(ctx)
     for endian, double in itertools.product("<>", (False, True)):
-        for natoms, nframes in ((1, 2), (3, 3), (40, 3)):
-            parts = [trr_frame(endian, double, natoms, s, rng) for s in range(nframes)]
+        for natoms, blocks, every in scenarios:
+            nframes = len(blocks)
+            parts = [trr_frame(endian, double, natoms, s, rng, blocks[s]) for s in range(nframes)]
             data = b"".join(h + b for h, b, _ in parts)
             frames = [p[2] for p in parts]
             ends = list(itertools.accumulate(len(h) + len(b) for h, b, _ in parts))
             T = len(data)
-            step = 1 if (T <= 700 or not ctx.quick) else 7
+            step = 1 if (every or T <= 700) else 7
             scheds = [[c, T] for c in range(0, T + 1, step)]
-            # byte-by-byte growth, and growth in random chunks
+            # byte-by-byte growth, growth in random chunks, growth frame by frame / header by header
             scheds.append(list(range(1, T + 1)))
+            scheds.append(list(ends))
+            hb = []
+            for (h, _b, _), e0 in zip(parts, [0] + ends[:-1]):
+                hb += [e0 + len(h)]
+            scheds.append(sorted(set(hb + list(ends))))
             for _ in range(3 if ctx.quick else 30):
                 cs = sorted(rng.sample(range(1, T), min(T - 1, rng.randrange(1, 12)))) + [T]
                 scheds.append(cs)
             hd = []
             for h, b, _ in parts:
                 hd += [len(h), len(b)]
+            label = {"kind": "trr", "endian": endian, "double": double, "natoms": natoms, "blocks": blocks,
+                     "nframes": nframes}
             model_lines, model_ticks = [], []
             for sch in scheds:
                 ncase += 1
                 trace = []
                 out = trr_run(tmpdir, data, sch, trace)
                 sizes, ticks, badreads = trr_ticks(trace)
-                if badreads:
+                seen = ctx.extra.setdefault("_c13_reported", [])
+                if badreads and "C13:trr:read-beyond-visible-bytes" not in seen:
+                    seen.append("C13:trr:read-beyond-visible-bytes")
                     ctx.fail("C13:trr:read-beyond-visible-bytes",
                              f"read (offset, requested, returned, visible) = {badreads[0][1:5]}",
-                             {"kind": "trr", "endian": endian, "double": double, "natoms": natoms,
-                              "nframes": nframes, "data": data.hex(), "schedule": sch})
+                             dict(label, data=data.hex(), schedule=sch))
                 model_lines.append(f"trr {lst(hd)} {lst(sizes)}")
                 model_ticks.append((sch, ticks))
-                ctx.count(1, branch=f"trr:{'big' if endian == '>' else 'little'}:{'double' if double else 'single'}")
-                bad = None
-                got = []
-                for st in out:
-                    if isinstance(st, str):
-                        bad = ("C13:trr:partial-frame-raises", f"get_gromacs_frames raised {st}")
-                        break
-                    visible, fr = st
-                    k = len(got)
-                    if k >= len(frames) or any(fr.get(key) != frames[k][key] for key in ("box", "x", "v")):
-                        bad = ("C13:trr:torn-or-wrong-frame", f"yielded frame {k} differs from the written one")
-                        break
-                    if ends[k] > visible:
-                        bad = ("C13:trr:torn-or-wrong-frame", f"frame {k} yielded with {visible} bytes visible, it ends at {ends[k]}")
-                        break
-                    got.append(fr)
-                if bad is None and len(got) != len(frames):
-                    bad = ("C13:trr:frame-withheld", f"{len(got)} of {len(frames)} frames yielded")
+                uniform = len(set(blocks)) == 1
+                ctx.count(1, branch=f"trr:{'big' if endian == '>' else 'little'}:{'double' if double else 'single'}:"
+                                    f"{'uniform' if uniform else 'heterogeneous'}")
+                bad = trr_predicate(out, frames, ends)
                 if bad:
-                    ctx.fail(bad[0], bad[1], {"kind": "trr", "endian": endian, "double": double, "natoms": natoms,
-                                              "nframes": nframes, "data": data.hex(), "schedule": sch})
+                    ctx.hit(f"trr:predicate-fails:{bad[0]}")
+                    if bad[0] not in seen:
+                        seen.append(bad[0])
+                        ctx.fail(bad[0], bad[1], dict(label, data=data.hex(), schedule=sch))
                 if len(sch) > 1:
-                    ctx.distinct(("trr", endian, double, natoms, tuple(sch)))
+                    ctx.distinct(("trr", endian, double, natoms, tuple(blocks), tuple(sch)))
             if ctx._driver_ok:
+                ndis = 0
                 for (sch, ticks), ans in zip(model_ticks, ctx.driver(model_lines)):
                     mt = [t for t in ans.split() if not t.startswith("y:")]
                     ctx.count(1, branch="trr:guard-trace-vs-model")
-                    if mt != ticks:
-                        ctx.disagree({"fn": "get_gromacs_frames guards vs trrRun", "endian": endian,
-                                      "double": double, "natoms": natoms, "schedule": sch[:20]}, ticks[:40], mt[:40])
+                    if mt != ticks and ndis < 2:
+                        ndis += 1
+                        ctx.disagree(dict(label, fn="get_gromacs_frames guards vs trrRun", schedule=sch[:20]),
+                                     ticks[:40], mt[:40])
     return ncase
 
 
@@ -708,9 +768,12 @@ def replay(ctx, obj):
             print("predicate:", bad)
             return 1 if bad else 0
         if r.get("kind") == "trr":
-            out = trr_run(tmpdir, bytes.fromhex(r["data"]), r["schedule"])
-            print(out[-1] if out else out)
-            return 1 if any(isinstance(s, str) for s in out) or len(out) != r["nframes"] else 0
+            trace = []
+            out = trr_run(tmpdir, bytes.fromhex(r["data"]), r["schedule"], trace)
+            bad = trr_ticks(trace)[2]
+            print("last:", out[-1] if out else out, "| frames yielded:", sum(1 for s in out if not isinstance(s, str)),
+                  "of", r["nframes"], "| short reads:", bad[:2])
+            return 1 if bad or any(isinstance(s, str) for s in out) or len(out) != r["nframes"] else 0
         if r.get("kind") == "absent":
             r0 = ep.ReadAndProcessOnTheFly(os.path.join(tmpdir, "absent.xyz"), ep.xyz_reader)
             try:
